@@ -17,6 +17,36 @@ LEVEL = {
             "4 C02", "explicit-state bounded-exhaustive exploration; round-trip and reference-bytes oracle"),
 }
 
+LEVEL.update({
+    "C03": ("Same schema space as C01/C02; generated C (standard mode) + lib/c is built from the working tree in several configurations "
+            "(gcc -O0..-O3, separate and single translation unit) and every (state, value) is encoded/decoded in a stand-alone harness with "
+            "struct and wire buffers flush against PROT_NONE pages; oracle: reference bytes / leaf values on the full storage, plus the Python peer.",
+            "4 C03", "explicit-state bounded-exhaustive exploration of schemas x values x build configurations on compiled code vs reference"),
+    "C04": ("Every traditional state is built five times (standard mode; -O with --endian little/big/both and both with -DBP_BIG_ENDIAN); "
+            "inputs are the EXH/BASIS values plus exhaustive per-byte sweeps (every value of every storage byte / wire byte under two backgrounds), "
+            "which exercise every generated statement on its whole input domain; oracle: -O == standard == reference.  The Go -O statements are "
+            "interpreted by bpmc/gofront when available (see evidence go_part).",
+            "4 C04", "bounded-exhaustive exploration with exhaustive per-byte sweeps; differential oracle std vs -O vs reference"),
+    "C05": ("Breadth-first search over schema-evolution events (append field to an extensible message node, grow an extensible array node) from a "
+            "root alphabet, canonical de-duplication; every ancestor/descendant pair on a path x every BASIS value of the descendant is decoded by "
+            "the ancestor's real Python and C decoders.", "4 C05", "BFS over version chains; old decoder vs encoded values"),
+    "C06": ("(a) complete (kind,width,offset) space by direct calls into a -DBP_BIG_ENDIAN build fed byte-reversed storage vs the default build; "
+            "(b) whole traditional messages on the emulated big-endian build; (c) -O big-endian branch vs little-endian branch with exhaustive byte "
+            "sweeps; (d) all 2^5 x 2 host-detection macro combinations.", "4 C06", "exhaustive enumeration of the finite space + bounded schema exploration; LE/BE differential oracle"),
+    "C07": ("(a) byte-length constants of C/Go/Python vs ceil(N/8) on every state; (b) every ENC/DEC inside guard pages at both ends and under "
+            "ASan+UBSan; (c) containment: exhaustive storage sweeps on standard and -O builds, Python out-of-range integers.",
+            "4 C07", "bounded-exhaustive exploration with guard pages / sanitizers and exhaustive per-byte sweeps"),
+    "C12": ("BFS over sequences of the nine listed rewrites (each at every applicable site) from a set of roots, canonical de-duplication; "
+            "invariant on every state: generated Python (and C on a fixed sub-scope) encodes every BASIS value of the root to the root's bytes.",
+            "4 C12", "BFS over rewrite histories; invariant = bytes equal to the root's"),
+    "C14": ("The space in the statement is finite and enumerated completely: all kinds x offsets x positions x basis values through generated "
+            "Python, generated C (standard and -O builds), direct C runtime calls on LE builds and the emulated BE build, and the raw bit copier "
+            "for every (n, di, si).", "4 C14", "complete enumeration of a finite space on the real code vs reference"),
+    "C16": ("Every state of SING u COMB u TREE x BASIS values: Python to_json()/to_dict() and the generated C Json function are executed and "
+            "their output parsed with json.loads and compared strictly (key order, types, sign) with the reference value tree.",
+            "4 C16", "bounded-exhaustive exploration; JSON parse + strict structural comparison"),
+})
+
 NOT_YET = {}
 
 
